@@ -17,6 +17,11 @@ CLAIMED = {
             "qualifying run of score>threshold (each comparison implied by the path condition), and a product run "
             "on the mirrored table shows the time-reversal symmetry; plus ChangeScore(L2Cost) on symbolic data",
             "4.C08"),
+    "C07": ("SeededBinarySegmentation with a table change score of free reals and symbolic threshold scale over an "
+            "enumerated (n, m, M, growth factor) grid: candidate intervals admissible and non-empty, per-interval "
+            "score/argmax are max/argmax of the table terms (z3, LRA), support/coverage, threshold monotonicity "
+            "(product run) and equality with an independent greedy executed in the same path on tie-free paths",
+            "4.C07"),
 }
 PENDING = {}
 TITLES = {}
